@@ -573,7 +573,7 @@ func (e *FEnc) freshCell(a *AllocInfo, prefix string) *Val {
 }
 
 func (e *FEnc) havocSet(st *State, ids map[int]bool) {
-	for id := range ids {
+	for _, id := range sortedInts(ids) {
 		a := e.allocs[id]
 		a.Aliased = true
 		if _, ok := st.cells[id]; ok && !a.Weak {
@@ -583,7 +583,7 @@ func (e *FEnc) havocSet(st *State, ids map[int]bool) {
 }
 
 func (e *FEnc) havocLeaked(st *State) {
-	for id := range st.cells {
+	for _, id := range sortedInts(st.cells) {
 		a := e.allocs[id]
 		if st.leaked[id] && !a.Weak {
 			st.cells[id] = e.newVal(a.Ty, fmt.Sprintf("hv_%s", mangle(a.Name)))
@@ -1581,8 +1581,16 @@ func (e *FEnc) enterBlock(b *ssa.BasicBlock) *State {
 	e.phiSubst = nil
 	// havoc
 	hs := st.clone()
-	for ph := range phiEntry {
+	for _, in := range b.Instrs { // in block order: the generated names (and so the queries) must not depend on map order
+		ph, ok := in.(*ssa.Phi)
+		if !ok {
+			break
+		}
+		if _, ok := phiEntry[ph]; !ok {
+			continue
+		}
 		e.vals[ph] = e.newVal(ph.Type(), "lv_"+mangle(ph.Comment))
+		e.rangeIndexFacts(ph)
 	}
 	mod, callsOrHeap := e.loopModifies(li)
 	ghostMod := map[int]bool{}
@@ -1597,7 +1605,7 @@ func (e *FEnc) enterBlock(b *ssa.BasicBlock) *State {
 			}
 		}
 	}
-	for id := range hs.cells {
+	for _, id := range sortedInts(hs.cells) {
 		a := e.allocs[id]
 		if a.Instr != nil && mod[a.Instr] || (hs.leaked[id] && callsOrHeap) || ghostMod[id] {
 			hs.cells[id] = e.freshCell(a, "lc")
@@ -1606,7 +1614,10 @@ func (e *FEnc) enterBlock(b *ssa.BasicBlock) *State {
 	if callsOrHeap {
 		e.havocHeap(hs)
 	}
-	for bb := range li.body {
+	for _, bb := range e.fn.Blocks {
+		if !li.body[bb] {
+			continue
+		}
 		for _, in := range bb.Instrs {
 			if ci, ok := in.(ssa.CallInstruction); ok {
 				nm := calleeName(ci.Common())
@@ -2019,4 +2030,55 @@ func (e *FEnc) globalInitFact(gv *types.Var, nm string) {
 		t = "(" + sym + " " + strings.Join(ts, " ") + ")"
 	}
 	e.fact(eq(nm, t))
+}
+
+// rangeIndexFacts: the index phi of a compiler-generated `for i := range slice` loop ("rangeindex": starts at -1, the
+// header computes k = phi+1 and leaves the loop unless k < n) satisfies -1 <= phi < max(n,0) at the header on every
+// iteration. This is the built-in invariant of that loop shape (the source cannot assign to the hidden index).
+func (e *FEnc) rangeIndexFacts(ph *ssa.Phi) {
+	if ph.Comment != "rangeindex" {
+		return
+	}
+	var inc *ssa.BinOp
+	starts := 0
+	for _, ed := range ph.Edges {
+		if c, ok := ed.(*ssa.Const); ok && c.Value != nil && c.Int64() == -1 {
+			starts++
+			continue
+		}
+		b, ok := ed.(*ssa.BinOp)
+		if !ok || b.Op != token.ADD || b.X != ssa.Value(ph) || (inc != nil && inc != b) {
+			return
+		}
+		if k, ok := b.Y.(*ssa.Const); !ok || k.Value == nil || k.Int64() != 1 {
+			return
+		}
+		inc = b
+	}
+	if starts != 1 || inc == nil {
+		return
+	}
+	v := e.vals[ph]
+	if v == nil || v.T == "" {
+		return
+	}
+	e.fact(fmt.Sprintf("(>= %s (- 1))", v.T))
+	for _, r := range *inc.Referrers() {
+		if cmp, ok := r.(*ssa.BinOp); ok && cmp.Op == token.LSS && cmp.X == ssa.Value(inc) {
+			if n := e.vals[cmp.Y]; n != nil && n.T != "" {
+				e.fact(fmt.Sprintf("(or (< %s %s) (= %s (- 1)))", v.T, n.T, v.T))
+			} else if k, ok := cmp.Y.(*ssa.Const); ok && k.Value != nil {
+				e.fact(fmt.Sprintf("(or (< %s %d) (= %s (- 1)))", v.T, k.Int64(), v.T))
+			}
+		}
+	}
+}
+
+func sortedInts[V any](m map[int]V) []int {
+	ks := make([]int, 0, len(m))
+	for k := range m {
+		ks = append(ks, k)
+	}
+	sort.Ints(ks)
+	return ks
 }
